@@ -231,12 +231,20 @@ def main(mod, argv=None):
                     min(16, os.cpu_count() or 1))
     ap.add_argument("--seeds", type=int, default=None)
     ap.add_argument("--no-evidence", action="store_true")
+    ap.add_argument("--digests", type=int, default=None,
+                    help="print seed:digest for the first N run-seeds (selftest)")
     args = ap.parse_args(argv)
     faulthandler.enable()
     try:
         assert_repo()
         if args.replay:
             return do_replay(mod, args.replay)
+        if args.digests is not None:
+            base = int(os.environ.get("VERIF_SEED", "0") or 0) * 10_000_000
+            for sd in range(base, base + args.digests):
+                rs = mod.run_seed(sd, args.tier)
+                print("%d:%s" % (sd, ",".join(r["digest"] for r in rs)))
+            return 0
         if args.seed is not None:
             for r in mod.run_seed(args.seed, args.tier):
                 print(json.dumps(jsonable({k: r[k] for k in r if k != "plan"}),
